@@ -20,6 +20,9 @@ fn run_case(line: &str) -> String {
       "tree" => tree::tree_case(&line_owned),
       "rhist" => hist::rhist_case(&mut t),
       "wr" => tree::writer_case(&mut t),
+      "sched" => sched::sched_case(&mut t),
+      "jsonv" => json::jsonv_case(&mut t),
+      "jsond" => json::jsond_case(&mut t),
       "comp" => tree::comp_case(&line_owned),
       "thist" => hist::hist_case(&line_owned, false),
       "chist" => hist::hist_case(&line_owned, true),
@@ -30,9 +33,19 @@ fn run_case(line: &str) -> String {
   format!("{} {}", id, out)
 }
 
+static UB_SITES: std::sync::Mutex<Vec<&'static str>> = std::sync::Mutex::new(Vec::new());
+
 fn main() {
+  // C19: every unsafe operation reports whether its documented precondition holds
+  rspack_sources::verif::set_unsafe_hook(Some(Box::new(|site, holds| {
+    if !holds {
+      if let Ok(mut g) = UB_SITES.lock() {
+        g.push(site);
+      }
+    }
+  })));
   let args: Vec<String> = std::env::args().collect();
-  std::panic::set_hook(Box::new(|_| {}));
+  install_panic_hook();
   let f = std::fs::File::open(&args[1]).expect("case file");
   let out = std::io::stdout();
   let mut out = std::io::BufWriter::new(out.lock());
@@ -41,6 +54,15 @@ fn main() {
     if line.trim().is_empty() {
       continue;
     }
-    writeln!(out, "{}", run_case(&line)).unwrap();
+    let mut res = run_case(&line);
+    if let Ok(mut g) = UB_SITES.lock() {
+      if !g.is_empty() {
+        g.sort();
+        g.dedup();
+        res.push_str(&format!(" UB={}", g.join(",")));
+        g.clear();
+      }
+    }
+    writeln!(out, "{}", res).unwrap();
   }
 }
